@@ -44,7 +44,16 @@ def budget(tier):
     return {"wall_s": 420.0, "max_cases": 10**9, "case_timeout": 120.0}
 
 
+def setup(tier, build=True):
+    if build:
+        bootstrap.build_rustsim()
+
+
 def gen_case(rng, tier, index):
+    if rng.random() < 0.06:
+        # the Rust worker pool: read-ahead measured in the Rust harness
+        return {"kind": "harness", "seed": rng.getrandbits(48), "runs": 60,
+                "max_n": rng.choice([12, 24, 40]), "max_T": rng.choice([3, 7])}
     if rng.random() < 0.55:
         T = rng.choice([1, 2, 3, 4, 6])
         b = rng.choice([1, 2, 3, 5, 8])
@@ -70,7 +79,9 @@ def gen_case(rng, tier, index):
             "k": rng.randrange(1, 8), "seed": rng.getrandbits(32),
             "sched_seed": rng.getrandbits(48),
             "policy": rng.choice(["starve", "starve", "random", "pct"]),
-            "policy_param": 0}
+            "policy_param": 0,
+            # virtual seconds the async consumer spends per example
+            "pause": rng.choice([0.0, 0.0, 0.5, 5.0])}
 
 
 def run_prim(case):
@@ -201,7 +212,7 @@ def run_iface(case):
         rr = eread.run_reader(env, env.open(), iface, split, opts, k=k,
                               seed=case["sched_seed"], policy=case["policy"],
                               policy_param=0, choices=case.get("choices"),
-                              max_steps=150000)
+                              max_steps=150000, pause=case.get("pause", 0.0))
         ctx = (f"{iface} {st['fmt']} shards={n_shards} repeat={case['repeat']}"
                f" shuffle={case['shuffle']} fp={case['fp']} take={k}")
         if rr.deadlock:
@@ -239,6 +250,8 @@ def run_iface(case):
         stats = {"iface_runs": 1, "shard_opens": len(env.opens),
                  "scheduler_decisions": rr.sched.steps if rr.sched else 0}
         probes = {"iface_" + iface: 1, "many_shards": int(n_shards >= 40),
+                  "slow_async_consumer": int(iface == "async" and
+                                             bool(case.get("pause"))),
                   "repeat_stream": int(case["repeat"]),
                   "consumer_starved": int(case["policy"] == "starve" and
                                           iface == "conc")}
@@ -257,6 +270,15 @@ def run_iface(case):
 
 
 def run_case(case):
+    if case["kind"].startswith("harness"):
+        from simlib.props import c15
+        res = c15.run_harness(case)
+        if not res["ok"] and res.get("vclass") != "read_ahead_exceeds_bound":
+            # ordering / deadlock verdicts of the harness belong to C15
+            res.update(ok=True, vclass=None, detail="")
+        res.setdefault("probes", {})["rust_harness"] = 1
+        res["key"] = {"engine": "E-rust"}
+        return res
     return run_prim(case) if case["kind"] == "prim" else run_iface(case)
 
 
@@ -274,7 +296,8 @@ def reach(agg):
     p = agg["probes"]
     for name in ("prim_shuffle", "prim_rr", "prim_pool", "prim_pool_rr",
                  "infinite_stream", "consumer_starved", "iface_sync",
-                 "iface_conc", "iface_async", "many_shards", "repeat_stream"):
+                 "iface_conc", "iface_async", "many_shards", "repeat_stream",
+                 "rust_harness", "slow_async_consumer"):
         if not p.get(name):
             need.append(f"probe {name} never hit")
     return need
